@@ -223,6 +223,12 @@ pub fn take_last_panic() -> Option<(String, String)> {
     LAST_PANIC.with(|c| c.borrow_mut().take())
 }
 
+/// True while the execution is being torn down (suspended tasks are unwound and their
+/// destructors run: facade calls made from destructors must then be inert).
+pub fn tearing_down() -> bool {
+    try_with(|k| k.finished).unwrap_or(true)
+}
+
 /// Task id of the running shuttle task.
 pub fn me() -> usize {
     usize::from(shuttle::current::me())
